@@ -54,6 +54,10 @@ Proof.
     unfold run_future, instr_log.
     destruct (texec c args f e (filter keep (all_owned f))) as [[[l1 lv1] r1] t1].
     destruct (span_on c (sp_level sp)); rewrite <- app_assoc; reflexivity.
+  - exists (fun _ => true), [ECreated]. split; [intros p _; reflexivity|]. split; [repeat constructor|].
+    rewrite filter_true. unfold run_future, instr_log.
+    destruct (texec c args f e (all_owned f)) as [[[l1 lv1] r1] t1].
+    destruct (span_on c (sp_level sp)); reflexivity.
 Qed.
 
 (** the inner log of the template, related to the block run on the full frame *)
@@ -198,6 +202,10 @@ Proof.
     rewrite scan_app, (scan_out _ (follows_out _ _)).
     simpl. rewrite scan_app, (scan_in _ IN). simpl.
     apply scan_out. apply Forall_app; split; apply xdrops_out.
+  - rewrite scan_app, (scan_out _ (span_create_out _ _)).
+    rewrite scan_app, (scan_out _ (follows_out _ _)).
+    rewrite scan_app, scan_wrap by (apply Forall_app; split; [assumption | apply inner_ok_xdrops]).
+    destruct r1; simpl; apply scan_out, xdrops_out.
   - rewrite scan_app, (scan_out _ (span_create_out _ _)).
     rewrite scan_app, (scan_out _ (follows_out _ _)).
     rewrite scan_app, scan_wrap by (apply Forall_app; split; [assumption | apply inner_ok_xdrops]).
